@@ -189,6 +189,15 @@ End C11_files.
 Print Assumptions file_mode_same.
 Print Assumptions file_collision_loses_task.
 
+(* The tolerance the tasks of a run carry is that of the KIND of the run
+   (forward: tol; back-propagation and jvec: tol_gradient), whatever ran before.
+   The wrapper of the stress harness records the tolerance every solve received,
+   in memory and from the hand-over files, and compares it with [tol_of]. *)
+Theorem task_tolerance_by_kind_only {A} (tf tg : A) (history : list run_kind) k :
+  last_run_tol tf tg history k = tol_of tf tg k.
+Proof. exact (last_run_tol_lemma tf tg history k). Qed.
+Print Assumptions task_tolerance_by_kind_only.
+
 (* ------------------------------------------------------------------ *)
 (* Tie to the CURRENT emg3d source (Gen/MpShape.v)                      *)
 (* ------------------------------------------------------------------ *)
